@@ -106,7 +106,13 @@ func (x *X) eval(env *Env, e ast.Expr) TV {
 		}
 		panic(fmt.Sprintf("contract: unknown identifier %q", e.Name))
 	case *ast.UnaryExpr:
+		if e.Op == token.NOT {
+			x.polarity = -x.polarity
+		}
 		v := x.eval(env, e.X)
+		if e.Op == token.NOT {
+			x.polarity = -x.polarity
+		}
 		switch e.Op {
 		case token.NOT:
 			return TV{S{not(v.V.(S).T), SBool}, v.T}
@@ -247,8 +253,13 @@ func (x *X) evalBinary(env *Env, e *ast.BinaryExpr) TV {
 		b := x.eval(env, e.Y)
 		return TV{S{or(a.V.(S).T, b.V.(S).T), SBool}, boolT}
 	}
+	savePol := x.polarity
+	if e.Op == token.EQL || e.Op == token.NEQ {
+		x.polarity = 0
+	}
 	a := x.eval(env, e.X)
 	b := x.eval(env, e.Y)
+	x.polarity = savePol
 	a, b = x.coerceNil(a, b)
 	rt := a.T
 	if rt == untypedInt && b.T != nil {
@@ -298,10 +309,16 @@ func (x *X) evalCall(env *Env, e *ast.CallExpr) TV {
 	if id, ok := e.Fun.(*ast.Ident); ok {
 		switch id.Name {
 		case "imp":
-			a, b := x.evalArgBool(env, e.Args[0]), x.evalArgBool(env, e.Args[1])
+			x.polarity = -x.polarity
+			a := x.evalArgBool(env, e.Args[0])
+			x.polarity = -x.polarity
+			b := x.evalArgBool(env, e.Args[1])
 			return TV{S{implies(a, b), SBool}, boolT}
 		case "iff":
+			save := x.polarity
+			x.polarity = 0
 			a, b := x.evalArgBool(env, e.Args[0]), x.evalArgBool(env, e.Args[1])
+			x.polarity = save
 			return TV{S{eq(a, b), SBool}, boolT}
 		case "ite":
 			c := x.evalArgBool(env, e.Args[0])
@@ -490,7 +507,7 @@ func (x *X) evalQuant(env *Env, e *ast.CallExpr, exists bool) TV {
 	term := fmt.Sprintf("(forall ((%s Int)) (=> (and (<= %s %s) (< %s %s)) %s))", k, lo, k, k, hi, ref)
 	if strings.HasPrefix(ref, "(") {
 		fnName := ref[1 : len(ref)-len(k)-2]
-		x.quants = append(x.quants, quant{guard: term, fn: fnName, lo: lo, hi: hi})
+		x.quants = append(x.quants, quant{guard: term, fn: fnName, lo: lo, hi: hi, pol: x.polarity})
 	}
 	return TV{S{term, SBool}, types.Typ[types.Bool]}
 }
